@@ -29,7 +29,7 @@ if [ -z "${__V-}" ]; then
   __V=1
   __k=${PWD#"${VERIF_ROOT-}"/}; __k=${__k//\//_}
   echo "start $__k" >> "${VERIF_EVLOG:-/dev/null}"
-  trap 'echo "end $__k $?" >> "${VERIF_EVLOG:-/dev/null}"; for i in "${_BOB_TMP_CLEANUP[@]-}" ; do command rm -f "$i" ; done' EXIT
+  trap 'echo "end $__k $?" >> "${VERIF_EVLOG:-/dev/null}"; for i in "${_BOB_TMP_CLEANUP[@]-}" ; do if [ -n "$i" ]; then command rm -f "$i"; fi; done' EXIT
   if [ -n "${VERIF_SW-}" ]; then
     if [ -e "$VERIF_SW/fail/$__k" ]; then echo junk > %(out)s; exit 1; fi
     if [ -e "$VERIF_SW/kill/$__k" ]; then echo junk > %(out)s; kill -9 $PPID; read -t 5 __x < /dev/zero || true; fi
@@ -58,6 +58,24 @@ if [ -z "${__V-}" ]; then
     done
     echo "}" >> %(out)s
   done
+  __oifs=$IFS; IFS=:
+  for __p in ${LD_LIBRARY_PATH-}; do
+    if [ -f "$__p/toolid.txt" ]; then
+      echo "L {" >> %(out)s
+      while IFS= read -r __l || [ -n "$__l" ]; do echo "  $__l" >> %(out)s; done < "$__p/toolid.txt"
+      echo "}" >> %(out)s
+    fi
+  done
+  for __p in $PATH; do
+    case $__p in "${VERIF_ROOT-/nonexistent}"/*)
+      echo "P {" >> %(out)s
+      if [ -f "$__p/toolid.txt" ]; then
+        while IFS= read -r __l || [ -n "$__l" ]; do echo "  $__l" >> %(out)s; done < "$__p/toolid.txt"
+      fi
+      echo "}" >> %(out)s;;
+    esac
+  done
+  IFS=$__oifs
   for __t in t0 t1; do
     if [ -n "${BOB_TOOL_PATHS[$__t]+x}" ]; then
       echo "T $__t {" >> %(out)s
@@ -81,7 +99,7 @@ fi
 _TOOLDIRS = r'''
 command mkdir -p bin0 bin1 lib0
 for __d in . bin0 bin1 lib0; do
-  { echo "toolid of"; while IFS= read -r __l || [ -n "$__l" ]; do echo " $__l"; done < result.txt; } > "$__d/toolid.txt"
+  { echo "toolid $__d of"; while IFS= read -r __l || [ -n "$__l" ]; do echo " $__l"; done < result.txt; } > "$__d/toolid.txt"
 done
 '''
 
@@ -94,6 +112,9 @@ def recorder(fid, step, kind="plain"):
     if kind == "fp":
         txt += (_FP % {"out": out}).lstrip("\n")
     txt += 'echo "F %d" >> %s\n' % (fid, out)
+    if step != "checkout":
+        # a file whose *name* depends on the script text: leftovers of another variant become visible
+        txt += ': > m%d.txt\n' % fid
     if kind == "tooldirs":
         txt += _TOOLDIRS.lstrip("\n")
     return txt
